@@ -223,6 +223,15 @@ func checkC07() fw.Check {
 							script = append(script, scripted.Reply{At: time.Duration(k) * time.Microsecond, Bad: 1 + r.Intn(4)})
 						}
 					}
+					if i%10 == 9 {
+						// a busy host: several hundred malformed / foreign packets (other pings and traceroutes) spread over the
+						// listening window, among the replies. Each is skipped; however many there are, they are no reason to
+						// give up the replies
+						total := p.timeout + time.Duration(int(p.last)-int(p.first)+1)*p.delay
+						for k := 0; k < 300+r.Intn(300); k++ {
+							script = append(script, scripted.Reply{At: time.Duration(r.Int63n(int64(total)-1)) | 1, Bad: 1 + 2*r.Intn(2)})
+						}
+					}
 					d := scripted.New(true, script)
 					if i%7 == 3 {
 						// every send blocks for a third of the listening timeout: the deadline passes while the sender is still
